@@ -1,2 +1,91 @@
 import FcpModel
-def main : IO Unit := pure ()
+open Lean Fcp
+
+/-! Line protocol: one JSON case per line on stdin, one JSON answer per line on stdout. -/
+
+def exceptJson {α} (f : α → Json) : Except PyErr α → Json
+  | .ok a => Json.mkObj [("ok", f a)]
+  | .error .overrun => Json.mkObj [("err", "overrun")]
+  | .error .other => Json.mkObj [("err", "other")]
+
+def getFuel (j : Json) : Nat :=
+  match j.getObjValAs? Nat "fuel" with
+  | .ok n => n
+  | .error _ => 200
+
+/-- codec: everything about one (schema, struct, value?, bytes?) case -/
+def opCodec (j : Json) : Except String Json := do
+  let S ← J.schema (← j.getObjVal? "schema")
+  let name ← j.getObjValAs? String "struct"
+  let fuel := getFuel j
+  let ty := resolve S fuel (.struct name)
+  let mut out : List (String × Json) := [("resolved", Json.bool ty.isSome)]
+  match j.getObjVal? "value" with
+  | .ok vj =>
+    let v ← J.val vj
+    match ty with
+    | some t =>
+      out := out ++ [("wf", Json.bool (wf t v)), ("spec_bytes", J.natsToJson (encBytes t v)),
+                     ("spec_bits", (enc t v).length)]
+    | none => pure ()
+    out := out ++ [("py_enc", exceptJson J.natsToJson (pyEncode S fuel name v))]
+  | .error _ => pure ()
+  match j.getObjVal? "bytes" with
+  | .ok bj =>
+    let bs ← J.natList bj
+    match ty with
+    | some t =>
+      out := out ++ [("spec_dec", match decBytes t bs with | some v => J.valToJson v | none => Json.mkObj [("none", true)])]
+    | none => pure ()
+    out := out ++ [("py_dec", exceptJson J.valToJson (pyDecode S fuel name bs))]
+  | .error _ => pure ()
+  return Json.mkObj out
+
+/-- `_Buffer` operation sequences -/
+def opBuf (j : Json) : Except String Json := do
+  let ops ← j.getObjValAs? (Array Json) "ops"
+  let mut b : Buf := {}
+  let mut outs : Array Json := #[]
+  for o in ops do
+    let k ← o.getObjValAs? String "k"
+    match k with
+    | "push_word" =>
+      let w ← o.getObjValAs? Int "w"
+      let n ← o.getObjValAs? Nat "n"
+      match b.pushWord w n with
+      | .ok b' => b := b'; outs := outs.push "ok"
+      | .error _ => outs := outs.push "err"
+    | "read_word" =>
+      let n ← o.getObjValAs? Nat "n"
+      match b.readWord n with
+      | .ok (w, b') => b := b'; outs := outs.push (Json.num ⟨w, 0⟩)
+      | .error _ => outs := outs.push "overrun"
+    | "push_bytes" =>
+      b := b.pushBytes (← J.natList (← o.getObjVal? "bytes")); outs := outs.push "ok"
+    | "seek" =>
+      b := { b with bitaddr := ← o.getObjValAs? Nat "addr" }; outs := outs.push "ok"
+    | _ => throw s!"bad buf op {k}"
+  return Json.mkObj [("outs", Json.arr outs), ("buffer", J.natsToJson b.buffer), ("bitaddr", b.bitaddr)]
+
+def dispatch (j : Json) : Except String Json := do
+  let op ← j.getObjValAs? String "op"
+  match op with
+  | "codec" => opCodec j
+  | "buf" => opBuf j
+  | _ => throw s!"unknown op {op}"
+
+partial def loop (hin : IO.FS.Stream) (hout : IO.FS.Stream) : IO Unit := do
+  let line ← hin.getLine
+  if line.isEmpty then return ()
+  let ans := match Json.parse line >>= dispatch with
+    | .ok j => j
+    | .error e => Json.mkObj [("driver_err", e)]
+  hout.putStrLn ans.compress
+  hout.flush
+  loop hin hout
+
+def main : IO Unit := do
+  let hin ← IO.getStdin
+  let hout ← IO.getStdout
+  loop hin hout
+  hout.flush
